@@ -210,6 +210,24 @@ static void run_batches(void) {
 	p_mutex_lock(mu); bt_stop = 1; p_cond_variable_broadcast(cv_ne); p_mutex_unlock(mu);
 	if (vh_nviol == 0 || bt_taken > 0) { struct timespec ts; clock_gettime(CLOCK_REALTIME, &ts); ts.tv_sec += 5; if (pthread_timedjoin_np(c, NULL, &ts) == 0) { p_cond_variable_free(cv_ne); p_mutex_free(mu); } }
 }
+/* condition variables created by several threads at the same moment (right after one was freed) are distinct objects: two variables that
+ * share one waiter queue would let a signal for one wake a waiter of the other only */
+static pthread_barrier_t nr_bar; static PCondVariable *nr_got[8]; static long long st_new_races;
+static void *nr_fn(void *a) { int i = (int)(intptr_t)a; pthread_barrier_wait(&nr_bar); nr_got[i] = p_cond_variable_new(); return NULL; }
+static void run_new_race(int rounds) {
+	int k, i, j; scen = "concurrent-constructors";
+	for (k = 0; k < rounds && vh_nviol < vh_max_viol; k++) {
+		pthread_t th[4]; int T = 2 + (k & 1) * 2; PCondVariable *old = p_cond_variable_new();
+		p_cond_variable_free(old);
+		pthread_barrier_init(&nr_bar, NULL, (unsigned)T);
+		for (i = 0; i < T; i++) pthread_create(&th[i], NULL, nr_fn, (void *)(intptr_t)i);
+		for (i = 0; i < T; i++) pthread_join(th[i], NULL);
+		pthread_barrier_destroy(&nr_bar);
+		for (i = 0; i < T; i++) for (j = i + 1; j < T; j++) if (nr_got[i] && nr_got[i] == nr_got[j]) { viol("same-object-twice", "two threads calling p_cond_variable_new at the same moment received the same object"); nr_got[j] = NULL; }
+		for (i = 0; i < T; i++) if (nr_got[i]) p_cond_variable_free(nr_got[i]);
+		st_new_races++; __atomic_add_fetch(&progress, 1, __ATOMIC_RELAXED);
+	}
+}
 static void run_wake(int W, int mode) {      /* mode 0 broadcast-all, 1 signal-one, 2 mutex-held-on-return */
 	pthread_t th[MAXT]; int i;
 	mu = p_mutex_new(); cv_ne = p_cond_variable_new(); registered = 0; go = 0; tokens = 0; arrived = 0; release_flag = 0; awake_flag = 0;
@@ -264,13 +282,14 @@ int main(int argc, char **argv) {
 	pthread_create(&wd, NULL, wd_fn, NULL);
 	for (i = 0; i < wakes && vh_nviol < vh_max_viol; i++) { int W = 1 + (int)vh_below(&r, (uint64_t)maxw); if (i % 5 == 4) run_two_mutexes(W > MAXT ? MAXT : W); else run_wake(W, (int)(i % 4)); }
 	run_batches();
+	run_new_race(400);
 	for (i = 0; i < 4 && vh_nviol < vh_max_viol; i++) run_storm(2 + (int)vh_below(&r, 5), wakes * 2);
 	for (i = 0; i < runs && vh_nviol < vh_max_viol; i++) {
 		int P = 1 + (int)vh_below(&r, (uint64_t)maxt / 2 + 1), C = 1 + (int)vh_below(&r, (uint64_t)maxt / 2 + 1), capc = 1 + (int)vh_below(&r, 4);
 		run_buffer(P, C, items / P + 1, capc, (int)(i & 1), (int)((i >> 1) & 1), (int)(i % 5 == 4));
 	}
 	p_libsys_shutdown();
-	printf("{\"ev\":\"stats\",\"buffer_runs\":%lld,\"items\":%lld,\"waits\":%lld,\"returns_with_false_predicate\":%lld,\"wake_cases\":%lld,\"concurrent_signal_rounds\":%lld,\"waiters_woken\":%lld,\"trylock_probes_during_wait\":%lld,\"condvar_reused_with_second_mutex\":%lld,\"signal_batches\":%lld,\"events_in_batches\":%lld,\"buffer_runs_with_trylock_producers\":%lld,\"trylock_acquisitions\":%lld,\"viol\":%d,\"wall\":%.2f}\n",
-	       st_runs, st_items, st_waits, st_spurious_returns, st_wake_cases, st_storm_rounds, st_waiters_woken, st_trylock_probes, st_repair_cases, st_batches, st_batch_events, st_try_runs, st_try_acquisitions, vh_nviol, vh_now() - t0);
+	printf("{\"ev\":\"stats\",\"buffer_runs\":%lld,\"items\":%lld,\"waits\":%lld,\"returns_with_false_predicate\":%lld,\"wake_cases\":%lld,\"concurrent_signal_rounds\":%lld,\"waiters_woken\":%lld,\"trylock_probes_during_wait\":%lld,\"condvar_reused_with_second_mutex\":%lld,\"signal_batches\":%lld,\"concurrent_constructor_rounds\":%lld,\"events_in_batches\":%lld,\"buffer_runs_with_trylock_producers\":%lld,\"trylock_acquisitions\":%lld,\"viol\":%d,\"wall\":%.2f}\n",
+	       st_runs, st_items, st_waits, st_spurious_returns, st_wake_cases, st_storm_rounds, st_waiters_woken, st_trylock_probes, st_repair_cases, st_batches, st_new_races, st_batch_events, st_try_runs, st_try_acquisitions, vh_nviol, vh_now() - t0);
 	return 0;
 }
